@@ -1,58 +1,133 @@
-import Spine.Update
-/-! Prototype: FunctionData store with Go's sharing made explicit: structs hold a slice (array id, length),
-    the store points to a struct, DataCopy copies the struct, the filter-less fast path adopts the caller's struct. -/
+import Spine.UpdateF
+/-!
+# The function-data store with Go's sharing made explicit (DESIGN §4.4, appendix B.15) — C04 / C11
+
+A value of a list type (`*T` with its one slice field) is a *struct* holding a slice header `(array id, length)`
+or nil; arrays are the backing arrays. The store (`FunctionData.data`) points to a struct. `DataCopy` copies the
+struct (sharing the array). A filter-less persisting `UpdateData` *adopts the caller's struct* (`r.data = newData`,
+`spine/function_data.go`), so the value handed in — and the event payload, which is the same pointer — later
+sees even re-assignments of the list. Engine writes go in place or to fresh arrays exactly as the code does
+(`Res.inplace`, `Res.fresh` of `Spine.Update`).
+
+`Cfg.fastpathRemote` (C04a): as written the fast path is taken for remote writes as well. Off = the candidate
+repair of appendix C (`restricted := remoteWrite && r.data != nil && SupportsPartialWrite()`).
+-/
 namespace Spine.Heap
 open Spine
 
+structure Cfg where
+  fastpathRemote : Bool := true
+  u : UCfg := {}
+deriving Repr, DecidableEq, Inhabited
+
+def Cfg.asWritten : Cfg := {}
+
+abbrev Slice := Option (Nat × Nat)      -- nil or (array id, length)
+
 structure H where
-  arrays : List (List Item) := []                 -- ArrId = index
-  structs : List (Option (Nat × Nat)) := []       -- StructId = index; list field: nil or (array, length)
-  store : Option Nat := none                      -- r.data
+  arrays : List (List Item) := []       -- ArrId = index
+  structs : List Slice := []            -- StructId = index; the list field of a value
+  store : Option Nat := none            -- r.data
 
-def H.newArr (h : H) (l : List Item) : H × Nat := ({ h with arrays := h.arrays ++ [l] }, h.arrays.length)
-def H.newStruct (h : H) (v : Option (Nat × Nat)) : H × Nat := ({ h with structs := h.structs ++ [v] }, h.structs.length)
-
-def H.slice (h : H) (v : Option (Nat × Nat)) : List Item :=
+def H.slice (h : H) (v : Slice) : List Item :=
   match v with
   | none => []
   | some (a, n) => ((h.arrays[a]?).getD []).take n
 
-def H.readStruct (h : H) (s : Nat) : List Item := h.slice ((h.structs[s]?).join)
+def H.field (h : H) (s : Nat) : Slice := (h.structs[s]?).join
 
-/-- a full update without filters, persisting: the store adopts the caller's value -/
-def full (h : H) (items : List Item) : H × Nat :=
-  let (h, v) := if items.isEmpty then (h, none) else let (h, a) := h.newArr items; (h, some (a, items.length))
-  let (h, s) := h.newStruct v
-  ({ h with store := some s }, s)
+def H.readStruct (h : H) (s : Nat) : List Item := h.slice (h.field s)
+
+/-- the stored list as the application reads it -/
+def H.readStore (h : H) : List Item :=
+  match h.store with
+  | none => []
+  | some s => h.readStruct s
+
+/-- a new backing array for a non-empty list (an empty list is a nil slice) -/
+def H.allocList (h : H) (l : List Item) : H × Slice :=
+  if l.isEmpty then (h, none) else ({ h with arrays := h.arrays ++ [l] }, some (h.arrays.length, l.length))
+
+def H.allocStruct (h : H) (v : Slice) : H × Nat := ({ h with structs := h.structs ++ [v] }, h.structs.length)
+
+/-- a value built by the caller: a struct with its own array -/
+def H.allocValue (h : H) (l : List Item) : H × Nat := (h.allocList l).1.allocStruct (h.allocList l).2
 
 /-- DataCopy: a copy of the struct, sharing the backing array -/
 def dataCopy (h : H) : H × Option Nat :=
   match h.store with
   | none => (h, none)
-  | some s => let (h, c) := h.newStruct ((h.structs[s]?).join); (h, some c)
+  | some s => ((h.allocStruct (h.field s)).1, some (h.allocStruct (h.field s)).2)
 
-/-- UpdateData with a filter or without persistence: through the per-type UpdateList -/
-def update (sh : Shape) (h : H) (remote persist : Bool) (nw : List Item) (fp fd : Option Filter) : H × Option Bool :=
-  -- r.data == nil ⇒ r.data = new(T)
-  let (h, s) := match h.store with
-    | some s => (h, s)
-    | none => let (h, s) := h.newStruct none; ({ h with store := some s }, s)
-  let cur := (h.structs[s]?).join
-  let ex := h.slice cur
-  match updateList sh remote ex nw fp fd with
-  | .panic _ => (h, none)
-  | .ok r =>
-    -- in-place effects on the existing backing array
-    let h := match cur with
-      | some (a, n) => { h with arrays := h.arrays.set a (r.inplace ++ ((h.arrays[a]?).getD []).drop n) }
-      | none => h
-    if r.ok && persist then
-      if r.fresh then
-        if r.out.isEmpty then ({ h with structs := h.structs.set s none }, some true)
-        else
-          let (h, a) := h.newArr r.out
-          ({ h with structs := h.structs.set s (some (a, r.out.length)) }, some true)
-      else (h, some true)
-    else (h, some r.ok)
+/-- the `*FilterType` argument: nil, a filter without selector / elements (`Data()` fails), or one with data -/
+inductive FArg
+  | nil
+  | nodata
+  | data (f : Filter)
+deriving Repr
+
+def FArg.isNil : FArg → Bool
+  | .nil => true
+  | _ => false
+
+def FArg.toOpt : FArg → Option Filter
+  | .data f => some f
+  | _ => none
+
+/-- outcome of `FunctionData.UpdateData`: panic, or (success, handle of the value handed in, handle of the data
+    returned to the caller — nil on failure) -/
+inductive UpdRes
+  | panic
+  | done (ok : Bool) (input : Nat) (ret : Option Nat)
+deriving Repr, DecidableEq
+
+/-- `r.data == nil ⇒ r.data = new(T)` -/
+def H.ensureStore (h : H) : H × Nat :=
+  match h.store with
+  | some s => (h, s)
+  | none => ({ (h.allocStruct none).1 with store := some h.structs.length }, h.structs.length)
+
+/-- the in-place effect of an engine call on the backing array of the stored slice -/
+def H.writeBack (h : H) (cur : Slice) (inplace : List Item) : H :=
+  match cur with
+  | some (a, n) => { h with arrays := h.arrays.set a (inplace ++ ((h.arrays[a]?).getD []).drop n) }
+  | none => h
+
+/-- what the engine's result does to the heap: in-place effects on the stored array; a fresh result list gets a
+    new array and, if the call succeeded and persists, becomes the stored list (a result that is the stored
+    slice itself — same array, same length — changes nothing when assigned back); the data handed back to the
+    caller (on success) is a struct of its own around the result slice -/
+def applyRes (h1 : H) (s : Nat) (persist : Bool) (inp : Nat) (r : Res) : H × UpdRes :=
+  let cur := h1.field s
+  let h2 := h1.writeBack cur r.inplace
+  let v : Slice := if r.fresh then (h2.allocList r.out).2 else cur
+  let h3 := if r.fresh then (h2.allocList r.out).1 else h2
+  let h4 := if r.fresh && r.ok && persist then { h3 with structs := h3.structs.set s v } else h3
+  if r.ok then ((h4.allocStruct v).1, .done true inp (some (h4.allocStruct v).2)) else (h4, .done false inp none)
+
+/-- the engine path of `UpdateData` (any filter, or no persistence): the per-type `UpdateList` on the store -/
+def engine (c : Cfg) (sh : Shape) (h : H) (remote persist : Bool) (nw : List Item) (fp fd : Option Filter)
+    (inp : Nat) : H × UpdRes :=
+  let h1 := h.ensureStore.1
+  let s := h.ensureStore.2
+  match updateListF c.u sh remote (h1.slice (h1.field s)) nw fp fd with
+  | .panic _ => (h1, .panic)
+  | .ok r => applyRes h1 s persist inp r
+
+/-- does this call take the replace fast path -/
+def fastPath (c : Cfg) (h : H) (remote persist : Bool) (fp fd : FArg) : Bool :=
+  fp.isNil && fd.isNil && persist && !(remote && !c.fastpathRemote && h.store.isSome)
+
+/-- `FunctionData.UpdateData(remoteWrite, persist, newData, filterPartial, filterDelete)` -/
+def updateData (c : Cfg) (sh : Shape) (h : H) (remote persist : Bool) (nw : List Item) (fp fd : FArg) : H × UpdRes :=
+  let h0 := (h.allocValue nw).1
+  let inp := (h.allocValue nw).2
+  if fastPath c h0 remote persist fp fd then
+    ({ h0 with store := some inp }, .done true inp (some inp))
+  else engine c sh h0 remote persist nw fp.toOpt fd.toOpt inp
+
+/-- shorthand used by the witnesses: a local, persisting, filter-less update (`SetData`) -/
+def full (h : H) (items : List Item) : H × Nat :=
+  ({ (h.allocValue items).1 with store := some (h.allocValue items).2 }, (h.allocValue items).2)
 
 end Spine.Heap
